@@ -103,39 +103,66 @@ func spin(slot, n int) {
 	spinSink[slot].v = x
 }
 
-// freeGroup is a set of persistent caller goroutines released together, once
-// per repetition, from a spin barrier.
-type freeGroup struct {
-	n    int
-	gen  atomic.Uint64
-	_    pad
-	done atomic.Int64
-	_    pad
-	quit atomic.Bool
+const freeBatch = 32
 
-	// published by the coordinator before gen is bumped
-	ch    *lcache
-	run   *runCtx
-	ops   []Op
-	delay [freeMaxWorkers]int
-	yield [freeMaxWorkers]bool
+// freeDeadline bounds one batch of repetitions (normally well under a
+// millisecond); generous because the callers may be starved on a loaded
+// machine. freeHangs counts the scenarios and stress rounds that ran into a
+// deadline: after a few of them the rest is skipped (each costs a full
+// deadline and they are all reported the same way).
+const freeDeadline = 8 * time.Second
 
-	// written by worker i before done is bumped
-	obs [freeMaxWorkers]Obs
-	pan [freeMaxWorkers]string
+var freeHangs atomic.Int64
+
+const freeMaxHangs = 3
+
+// freeRep is one repetition of a batch: a fresh cache with the prefix applied,
+// the pre-delays of the callers, their arrival counter and their results.
+type freeRep struct {
+	arrive atomic.Int32
+	_      pad
+	ch     *lcache
+	run    *runCtx
+	delay  [freeMaxWorkers]int
+	yield  [freeMaxWorkers]bool
+	obs    [freeMaxWorkers]Obs
+	pan    [freeMaxWorkers]string
+	_      pad
 }
 
-func newFreeGroup(n int) *freeGroup {
-	g := &freeGroup{n: n}
-	for i := 0; i < n; i++ {
+// freeGroup is the set of caller goroutines of one scenario. The coordinator
+// prepares a batch of repetitions and blocks; the callers walk through the
+// batch on their own and meet, for every repetition, at a spin barrier (the
+// repetition's arrival counter), so that their calls start within a few
+// nanoseconds of each other; only the callers have to be on a CPU at the same
+// time. Waiting falls back to sleeping when a partner is not running
+// (oversubscribed machine).
+type freeGroup struct {
+	n     int
+	ops   []Op
+	batch []freeRep
+	nrep  int // repetitions of the batch in use
+	start [freeMaxWorkers]chan bool
+	fin   chan struct{}
+	lost  bool
+}
+
+func newFreeGroup(ops []Op) *freeGroup {
+	g := &freeGroup{n: len(ops), ops: ops, batch: make([]freeRep, freeBatch), fin: make(chan struct{}, freeMaxWorkers)}
+	for i := 0; i < g.n; i++ {
+		g.start[i] = make(chan bool, 1)
 		go g.worker(i)
 	}
 	return g
 }
 
 func (g *freeGroup) stop() {
-	g.quit.Store(true)
-	g.gen.Add(1)
+	if g.lost {
+		return // callers stuck inside the cache: leaked
+	}
+	for i := 0; i < g.n; i++ {
+		g.start[i] <- false
+	}
 }
 
 func (g *freeGroup) worker(i int) {
@@ -143,55 +170,49 @@ func (g *freeGroup) worker(i int) {
 	sl := &freeSlot{}
 	freeSlots.Store(id, sl)
 	defer freeSlots.Delete(id)
-	var last uint64
-	for {
-		for spins := 0; ; spins++ {
-			if cur := g.gen.Load(); cur != last {
-				last = cur
-				break
+	for <-g.start[i] {
+		for b := 0; b < g.nrep; b++ {
+			rp := &g.batch[b]
+			// barrier
+			rp.arrive.Add(1)
+			for spins := 0; rp.arrive.Load() < int32(g.n); spins++ {
+				if spins > 20000 {
+					time.Sleep(20 * time.Microsecond)
+				}
 			}
-			if spins > 30000 {
+			if d := rp.delay[i]; d > 0 {
+				spin(i, d)
+			}
+			if rp.yield[i] {
 				runtime.Gosched()
 			}
-			if spins > 3000000 {
-				time.Sleep(20 * time.Microsecond)
-			}
-		}
-		if g.quit.Load() {
-			return
-		}
-		if d := g.delay[i]; d > 0 {
-			spin(i, d)
-		}
-		if g.yield[i] {
-			runtime.Gosched()
-		}
-		sl.cbs = nil
-		func() {
-			defer func() {
-				if p := recover(); p != nil {
-					g.pan[i] = fmt.Sprint(p)
-				}
+			sl.cbs = nil
+			func() {
+				defer func() {
+					if p := recover(); p != nil {
+						rp.pan[i] = fmt.Sprint(p)
+					}
+				}()
+				rp.obs[i] = rp.run.exec(rp.ch, g.ops[i], &sl.cbs)
 			}()
-			g.obs[i] = g.run.exec(g.ch, g.ops[i], &sl.cbs)
-		}()
-		g.done.Add(1)
+		}
+		g.fin <- struct{}{}
 	}
 }
 
-// release runs one repetition of the concurrent calls; false = deadline.
+// release lets the callers run the prepared batch; false = deadline.
 func (g *freeGroup) release() bool {
-	g.done.Store(0)
-	g.gen.Add(1)
-	start := time.Time{}
-	for spins := 1; g.done.Load() < int64(g.n); spins++ {
-		if spins%2048 == 0 {
-			runtime.Gosched()
-			if start.IsZero() {
-				start = time.Now()
-			} else if time.Since(start) > opDeadline {
-				return false
-			}
+	for i := 0; i < g.n; i++ {
+		g.start[i] <- true
+	}
+	tm := time.NewTimer(freeDeadline)
+	defer tm.Stop()
+	for i := 0; i < g.n; i++ {
+		select {
+		case <-g.fin:
+		case <-tm.C:
+			g.lost = true
+			return false
 		}
 	}
 	return true
@@ -253,7 +274,7 @@ func boundedRange(ch *lcache, kind string) (Obs, bool) {
 // exactly one concurrent group, tail observers (len/size/range*). It fills
 // h.Free.Outcomes, the prefix observations, and h.Failure for what only the
 // Go side can see.
-func runFree(h *History, g *freeGroup) {
+func runFree(h *History) {
 	spec := h.Free
 	spec.Outcomes = nil
 	h.Failure = nil
@@ -265,14 +286,8 @@ func runFree(h *History, g *freeGroup) {
 		}
 	}
 	ops := h.Items[gi].Conc
-	own := g == nil
-	if own {
-		g = newFreeGroup(len(ops))
-		defer g.stop()
-	}
-	if g.n != len(ops) {
-		panic("free group size")
-	}
+	g := newFreeGroup(ops)
+	defer g.stop()
 	me := goid()
 	sl := &freeSlot{}
 	freeSlots.Store(me, sl)
@@ -290,119 +305,133 @@ func runFree(h *History, g *freeGroup) {
 		h.Failure = &Failure{Step: gi, What: fmt.Sprintf("%s (repetition %d)", what, rep), Tag: tag}
 	}
 	orphans := orphanCallback.Load()
-	for rep := 0; rep < spec.Reps; rep++ {
-		r := &runCtx{lockless: true}
-		ch := lru.NewCache[int64, *tval](h.Cap, opts...)
-		// sequential prefix
-		key = key[:0]
-		pobs := make([]Obs, 0, gi)
-		panicked := ""
-		func() {
-			defer func() {
-				if p := recover(); p != nil {
-					panicked = fmt.Sprint(p)
-				}
-			}()
-			for i := 0; i < gi; i++ {
-				if ch.VerifLocked() {
-					panicked = "mutex left locked by the previous call"
-					return
-				}
-				sl.cbs = nil
-				o := r.exec(ch, *h.Items[i].Op, &sl.cbs)
-				pobs = append(pobs, o)
-				key = appendObsKey(key, &o)
-			}
-		}()
-		if panicked != "" {
-			fail(rep, "sequential prefix: "+panicked, "panic")
-			return
+	for rep0 := 0; rep0 < spec.Reps; rep0 += freeBatch {
+		g.nrep = spec.Reps - rep0
+		if g.nrep > freeBatch {
+			g.nrep = freeBatch
 		}
-		if rep == 0 {
-			prefixKey = string(key)
-			for i := 0; i < gi; i++ {
-				o := pobs[i]
-				h.Items[i].Obs = &o
-			}
-		} else if string(key) != prefixKey {
-			fail(rep, "the sequential prefix gave different observations than in repetition 0", "free-prefix-nondeterministic")
-			return
-		}
-		// concurrent calls
-		g.ch, g.run, g.ops = ch, r, ops
-		mode := rng.Intn(10)
-		for i := 0; i < g.n; i++ {
-			g.delay[i], g.yield[i] = 0, false
-			switch {
-			case mode < 3:
-			case mode < 8:
-				g.delay[i] = rng.Intn(4 << (2 * uint(mode-3))) // < 4, 16, 64, 256, 1024 iterations
-			default:
-				g.delay[i] = rng.Intn(64)
-				g.yield[i] = rng.Intn(3) == 0
-			}
-		}
-		if !g.release() {
-			fail(rep, "free-running concurrent callers did not all return (deadlock)", "deadlock")
-			if !own {
-				// the group is lost; the caller must not reuse it
-				g.quit.Store(true)
-			}
-			return
-		}
-		for i := 0; i < g.n; i++ {
-			if g.pan[i] != "" {
-				fail(rep, "concurrent caller panicked: "+g.pan[i], "panic")
-				g.pan[i] = ""
-				return
-			}
-		}
-		if ch.VerifLocked() {
-			fail(rep, "all concurrent callers returned but the mutex is still held", "deadlock")
-			return
-		}
-		key = key[:0]
-		for i := 0; i < g.n; i++ {
-			key = appendObsKey(key, &g.obs[i])
-		}
-		// tail observers
-		tobs := make([]Obs, 0, len(h.Items)-gi-1)
-		func() {
-			defer func() {
-				if p := recover(); p != nil {
-					panicked = fmt.Sprint(p)
-				}
-			}()
-			for i := gi + 1; i < len(h.Items); i++ {
-				op := h.Items[i].Op
-				var o Obs
-				switch op.Kind {
-				case "range", "rangefilo", "rangefifo":
-					var ok bool
-					if o, ok = boundedRange(ch, op.Kind); !ok {
-						panicked = op.Kind + " visits more than 255 entries (corrupted list)"
+		// prepare the batch: fresh caches, sequential prefix, pre-delays
+		for b := 0; b < g.nrep; b++ {
+			rep := rep0 + b
+			rp := &g.batch[b]
+			r := &runCtx{lockless: true}
+			ch := lru.NewCache[int64, *tval](h.Cap, opts...)
+			key = key[:0]
+			pobs := make([]Obs, 0, gi)
+			panicked := ""
+			func() {
+				defer func() {
+					if p := recover(); p != nil {
+						panicked = fmt.Sprint(p)
+					}
+				}()
+				for i := 0; i < gi; i++ {
+					if ch.VerifLocked() {
+						panicked = "mutex left locked by the previous call"
 						return
 					}
-				default:
 					sl.cbs = nil
-					o = r.exec(ch, *op, &sl.cbs)
+					o := r.exec(ch, *h.Items[i].Op, &sl.cbs)
+					pobs = append(pobs, o)
+					key = appendObsKey(key, &o)
 				}
-				tobs = append(tobs, o)
-				key = appendObsKey(key, &o)
+			}()
+			if panicked != "" {
+				fail(rep, "sequential prefix: "+panicked, "panic")
+				return
 			}
-		}()
-		if panicked != "" {
-			fail(rep, "tail observers: "+panicked, "panic")
+			if rep == 0 {
+				prefixKey = string(key)
+				for i := 0; i < gi; i++ {
+					o := pobs[i]
+					h.Items[i].Obs = &o
+				}
+			} else if string(key) != prefixKey {
+				fail(rep, "the sequential prefix gave different observations than in repetition 0", "free-prefix-nondeterministic")
+				return
+			}
+			rp.ch, rp.run = ch, r
+			rp.arrive.Store(0)
+			// pre-delays: none (30 %), each caller a random number of spin
+			// iterations below 4, 16, 64, 256 or 1024 (68 %), rarely a
+			// runtime.Gosched
+			mode := rng.Intn(50)
+			for i := 0; i < g.n; i++ {
+				rp.delay[i], rp.yield[i], rp.pan[i] = 0, false, ""
+				switch {
+				case mode < 15:
+				case mode < 49:
+					rp.delay[i] = rng.Intn(4 << (2 * uint(mode%5)))
+				default:
+					rp.delay[i] = rng.Intn(64)
+					rp.yield[i] = rng.Intn(2) == 0
+				}
+			}
+		}
+		// concurrent calls
+		if !g.release() {
+			freeHangs.Add(1)
+			fail(rep0, "free-running concurrent callers did not all return (deadlock)", "deadlock")
 			return
 		}
-		if j, ok := index[string(key)]; ok {
-			spec.Outcomes[j].Count++
-			continue
+		// results and tail observers
+		for b := 0; b < g.nrep; b++ {
+			rep := rep0 + b
+			rp := &g.batch[b]
+			ch, r := rp.ch, rp.run
+			for i := 0; i < g.n; i++ {
+				if rp.pan[i] != "" {
+					fail(rep, "concurrent caller panicked: "+rp.pan[i], "panic")
+					return
+				}
+			}
+			if ch.VerifLocked() {
+				fail(rep, "all concurrent callers returned but the mutex is still held", "deadlock")
+				return
+			}
+			key = key[:0]
+			for i := 0; i < g.n; i++ {
+				key = appendObsKey(key, &rp.obs[i])
+			}
+			tobs := make([]Obs, 0, len(h.Items)-gi-1)
+			panicked := ""
+			func() {
+				defer func() {
+					if p := recover(); p != nil {
+						panicked = fmt.Sprint(p)
+					}
+				}()
+				for i := gi + 1; i < len(h.Items); i++ {
+					op := h.Items[i].Op
+					var o Obs
+					switch op.Kind {
+					case "range", "rangefilo", "rangefifo":
+						var ok bool
+						if o, ok = boundedRange(ch, op.Kind); !ok {
+							panicked = op.Kind + " visits more than 255 entries (corrupted list)"
+							return
+						}
+					default:
+						sl.cbs = nil
+						o = r.exec(ch, *op, &sl.cbs)
+					}
+					tobs = append(tobs, o)
+					key = appendObsKey(key, &o)
+				}
+			}()
+			if panicked != "" {
+				fail(rep, "tail observers: "+panicked, "panic")
+				return
+			}
+			if j, ok := index[string(key)]; ok {
+				spec.Outcomes[j].Count++
+				continue
+			}
+			index[string(key)] = len(spec.Outcomes)
+			oc := FreeOutcome{Count: 1, FirstRep: rep, Obss: make([]Obs, g.n), Tail: tobs}
+			copy(oc.Obss, rp.obs[:g.n])
+			spec.Outcomes = append(spec.Outcomes, oc)
 		}
-		index[string(key)] = len(spec.Outcomes)
-		oc := FreeOutcome{Count: 1, FirstRep: rep, Obss: make([]Obs, g.n), Tail: tobs}
-		copy(oc.Obss, g.obs[:g.n])
-		spec.Outcomes = append(spec.Outcomes, oc)
 	}
 	if orphanCallback.Load() != orphans && !spec.NoCb {
 		// (another scenario running in parallel may have caused it; it is
@@ -557,7 +586,7 @@ const (
 func freeScenarios(seed int64, thorough bool) []History {
 	var hs []History
 	id := freeIDBase
-	reps2, reps3, nTriples, nRandom := 700, 500, 240, 160
+	reps2, reps3, nTriples, nRandom := 600, 400, 220, 160
 	if thorough {
 		reps2, reps3, nTriples, nRandom = 2000, 1500, -1, 1500
 	}
@@ -604,43 +633,41 @@ func freeScenarios(seed int64, thorough bool) []History {
 	return hs
 }
 
-// runFreeAll runs the scenarios on `par` parallel runners, each with its own
-// caller goroutines.
-func runFreeAll(hs []History, par int) {
-	var next atomic.Int64
+// runFreeAll runs the scenarios on `par` parallel runners. Scenarios started
+// after `budget` has elapsed (slow or heavily loaded machine) run only 32
+// repetitions, after one and a half times the budget 2; it returns how many
+// were cut short.
+func runFreeAll(hs []History, par int, budget time.Duration) int {
+	var next, cut atomic.Int64
+	t0 := time.Now()
 	var wg sync.WaitGroup
 	for w := 0; w < par; w++ {
 		wg.Add(1)
 		go func() {
 			defer wg.Done()
-			groups := map[int]*freeGroup{}
-			defer func() {
-				for _, g := range groups {
-					g.stop()
-				}
-			}()
 			for {
 				i := int(next.Add(1)) - 1
 				if i >= len(hs) {
 					return
 				}
-				h := &hs[i]
-				n := 0
-				for j := range h.Items {
-					if h.Items[j].Op == nil {
-						n = len(h.Items[j].Conc)
+				if freeHangs.Load() >= freeMaxHangs {
+					hs[i].Free.Reps = 0
+					cut.Add(1)
+					continue
+				}
+				if el := time.Since(t0); el > budget {
+					cut.Add(1)
+					if hs[i].Free.Reps = 32; el > budget*3/2 {
+						hs[i].Free.Reps = 2
 					}
 				}
-				g := groups[n]
-				if g == nil || g.quit.Load() {
-					g = newFreeGroup(n)
-					groups[n] = g
-				}
-				runFree(h, g)
+				// caller goroutines live for one scenario: nobody spins idle
+				runFree(&hs[i])
 			}
 		}()
 	}
 	wg.Wait()
+	return int(cut.Load())
 }
 
 // ---------------------------------------------------------------------
@@ -759,6 +786,7 @@ func runStress(sp *StressSpec) (what, tag string) {
 	select {
 	case <-fin:
 	case <-time.After(20 * time.Second):
+		freeHangs.Add(1)
 		return "stress workers did not finish (deadlock)", "deadlock"
 	}
 	for w := range ws {
@@ -892,6 +920,9 @@ func stressHistory(seed int64, round int, thorough bool) History {
 func runStressHistory(h *History) {
 	h.Failure = nil
 	h.Stress.Ops = 0
+	if freeHangs.Load() >= freeMaxHangs {
+		return // skipped, see freeHangs
+	}
 	if what, tag := runStress(h.Stress); tag != "" {
 		h.Failure = &Failure{Step: 0, What: fmt.Sprintf("stress (%d goroutines, %d keys, capacity %d, callback %v): %s",
 			h.Stress.Workers, h.Stress.Keys, h.Stress.Cap, !h.Stress.NoCb, what), Tag: tag}
